@@ -152,10 +152,24 @@ type sched struct {
 
 func (s *sched) Start(t time.Time) { s.inner.Start(t) }
 func (s *sched) Next() (time.Time, bool) {
-	s.r.gate()
-	s.r.mu.Lock()
-	defer s.r.mu.Unlock()
-	tx, ok := s.inner.Next()
+	var tx time.Time
+	var ok bool
+	if !s.r.isFine() {
+		s.r.gate()
+	}
+	if s.r.isFine() {
+		// (no gate: the scheduling point is the one right before the atomic access inside the real Next)
+		// the real Next runs outside the mutex and parks at its own scheduling points; its result is logged when it returns
+		s.r.enter()
+		tx, ok = s.inner.Next()
+		s.r.mu.Lock()
+		defer s.r.mu.Unlock()
+		delete(s.r.inCall, s.r.tid())
+	} else {
+		s.r.mu.Lock()
+		defer s.r.mu.Unlock()
+		tx, ok = s.inner.Next()
+	}
 	t := s.r.tid()
 	if ok {
 		s.r.logf("n%d", s.r.lid(t))
@@ -169,10 +183,21 @@ func (s *sched) Next() (time.Time, bool) {
 	return tx, ok
 }
 func (s *sched) Left() int {
-	s.r.gate()
-	s.r.mu.Lock()
-	defer s.r.mu.Unlock()
-	l := s.inner.Left()
+	var l int
+	if !s.r.isFine() {
+		s.r.gate()
+	}
+	if s.r.isFine() {
+		s.r.enter()
+		l = s.inner.Left()
+		s.r.mu.Lock()
+		defer s.r.mu.Unlock()
+		delete(s.r.inCall, s.r.tid())
+	} else {
+		s.r.mu.Lock()
+		defer s.r.mu.Unlock()
+		l = s.inner.Left()
+	}
 	t := s.r.tid()
 	s.r.logf("c%d:%d", s.r.lid(t), l)
 	if l == 0 {
